@@ -5562,7 +5562,11 @@ impl PeerConnectionInner {
     }
 
     fn close_with_reason(&self, reason: DisconnectReason) {
-        if *self.peer_state.borrow() == PeerConnectionState::Closed {
+        // Idempotence guard. `peer_state` cannot serve as one: the ICE loops also set it to
+        // `Closed` when ICE closes underneath the connection (e.g. `ice_transport().stop()`),
+        // and a later `close()` must still tear everything down. `signaling_state` is only
+        // ever set to `Closed` by this function.
+        if *self.signaling_state.borrow() == SignalingState::Closed {
             return;
         }
 
